@@ -329,6 +329,13 @@ func makingslash(vs *ValidatorStore, evidences []types.Evidence) []Validator {
 }
 
 func (vs *ValidatorStore) HandleUnstake(unstake Unstake, height int64) error {
+	return vs.reduceStake(unstake, height, true)
+}
+
+// reduceStake lowers the stake of the validator record.  The rule that refuses an unstake within 2
+// blocks of a purge is for UNSTAKE transactions; the postponed allegation penalty (whose amount has
+// already been taken from the delegation records) is applied without it, otherwise it is lost.
+func (vs *ValidatorStore) reduceStake(unstake Unstake, height int64, purgeRule bool) error {
 	validator := &Validator{}
 
 	validator, err := vs.Get(unstake.Address)
@@ -348,7 +355,7 @@ func (vs *ValidatorStore) HandleUnstake(unstake Unstake, height int64) error {
 	if err != nil {
 		return errors.New("failed to get last purge height")
 	}
-	if purgeHeight > 0 && purgeHeight+2 > height {
+	if purgeRule && purgeHeight > 0 && purgeHeight+2 > height {
 		return errors.New("not allowed to unstake within 2 blocks after unstake")
 	}
 	err = vs.set(*validator)
